@@ -19,6 +19,15 @@ if TYPE_CHECKING:
 _ROUTING_DECISION_KEY = "__routing_decision__"
 
 
+def _cache_identity(node: HyperNode) -> str:
+    """Definition hash salted with the node-level facts a cached entry depends on."""
+    parts = [node.definition_hash, repr(tuple(node.outputs))]
+    targets = getattr(node, "targets", None)
+    if targets is not None:
+        parts.append(repr([str(t) for t in targets]))
+    return "|".join(parts)
+
+
 def check_cache(
     node: HyperNode,
     inputs: dict[str, Any],
@@ -34,7 +43,11 @@ def check_cache(
 
     from hypergraph.cache import compute_cache_key
 
-    cache_key = compute_cache_key(node.definition_hash, inputs)
+    # Key on what the function actually receives (original parameter names, so that
+    # renamed inputs cannot alias one another) and on everything that decides what a
+    # stored entry means for this node: the output names it is unpacked onto and,
+    # for gates, the targets a stored decision refers to.
+    cache_key = compute_cache_key(_cache_identity(node), node.map_inputs_to_params(inputs))
     if not cache_key:
         return "", None
 
